@@ -108,7 +108,7 @@ _devnull = None
 
 
 def run_tlexport(capture: bytes, keylog, args=(), infile="in.pcapng", reset=True, cwd=None, keep_state=False,
-                 want_objects=False):
+                 want_objects=False, keep_output=False):
     """One in-process execution of tlexport.main.run().
 
     capture : bytes of the input file
@@ -123,8 +123,9 @@ def run_tlexport(capture: bytes, keylog, args=(), infile="in.pcapng", reset=True
     outp = os.path.join(d, "out.pcapng")
     with open(inp, "wb") as f:
         f.write(capture)
-    with contextlib.suppress(FileNotFoundError):
-        os.unlink(outp)
+    if not keep_output:       # keep_output: whatever an earlier run left at the output path stays there (C18)
+        with contextlib.suppress(FileNotFoundError):
+            os.unlink(outp)
     argv = ["tlexport", "-i", inp, "-o", outp]
     if keylog is not None:
         kp = os.path.join(d, "keys.log")
@@ -166,7 +167,7 @@ def run_tlexport(capture: bytes, keylog, args=(), infile="in.pcapng", reset=True
 
 
 def run_cli(capture: bytes, keylog, args=(), cwd=None, env=None, hashseed="0", infile="in.pcapng", timeout=120,
-            src=None, workdir=None, outfile_rel=None):
+            src=None, workdir=None, outfile_rel=None, stale_output=None):
     """Fresh-process execution through the command line, `python -m tlexport.main`.
     env: extra environment (the base is minimal, not inherited)."""
     src = src or SRC
@@ -177,6 +178,9 @@ def run_cli(capture: bytes, keylog, args=(), cwd=None, env=None, hashseed="0", i
         outp = os.path.join(d, "out.pcapng")
         with open(inp, "wb") as f:
             f.write(capture)
+        if stale_output is not None:
+            with open(outp, "wb") as f:
+                f.write(stale_output)
         argv = [PY, "-m", "tlexport.main", "-i", inp, "-o", outp]
         if keylog is not None:
             kp = os.path.join(d, "keys.log")
